@@ -126,6 +126,10 @@ fn explicit_case(case: u64, rng: &mut Rng, rep: &mut Report) {
     let blocksize = if r2.chance(1, 3) { *r2.pick(&[24usize, 64, 160, 400]) } else { 0 };
     set_docstore_blocksize(blocksize);
     rep.observe("docstore_blocksize", if blocksize == 0 { "default".to_string() } else { blocksize.to_string() });
+    // doc store written on the indexing thread (no compressor thread) in a quarter of the cases;
+    // compressor none / zstd instead of lz4 in a third
+    let variant = set_docstore_variant(r2.chance(1, 4), if r2.chance(1, 3) { 1 + r2.below(2) as u8 } else { 0 });
+    rep.observe("docstore_variant", variant);
     let mut ex = match Exec::create(Box::new(RamDirectory::create()), cfg.clone(), None) {
         Ok(e) => e,
         Err(e) => {
